@@ -1157,6 +1157,12 @@ def run_program(env, cfg, prog, record=True, plain=False, fault=None, emulate_ac
                         h_.commit()
                     finally:
                         h_.close()
+                elif kind == 'vswitch':
+                    # the manager-level switch options['versioning'] (documented as the way to turn versioning off for a
+                    # while); the configuration of the Layer-B model is fixed per run, so histories using it are judged on
+                    # the observations only
+                    if env.versioned and not plain:
+                        env.manager.options['versioning'] = bool(op[1])
                 elif kind == 'readnames':
                     # the application looks at the record of the running transaction (entity_names / changed_entities)
                     # between two flushes and keeps the object
